@@ -68,12 +68,23 @@ Proof.
   split; [split; nra|]. unfold ab, vsub; cbn [fst snd]. split; ring.
 Qed.
 
+(* the value computed by the code is the squared distance to that point *)
+Lemma d2_xy_line_closest p a b : ~ pt_eq a b -> d2_xy_line p (a, b) == d2_xy p (closest_on_line p (a, b)).
+Proof.
+  intros Hab. unfold d2_xy_line, closest_on_line.
+  pose proof (l2_pos a b Hab) as Hl.
+  destruct (qltb (vdot (vsub p a) (vsub b a)) 0); [reflexivity|].
+  destruct (qltb (vdot (vsub b a) (vsub b a)) (vdot (vsub p a) (vsub b a))); [reflexivity|].
+  rewrite d2_xy_expand. destruct p as [px py], a as [ax ay], b as [bx by_].
+  unfold vcross, vdot, vsub in *; cbn [fst snd] in *. field. lra.
+Qed.
+
 (* ... and no point of the segment is closer *)
 Lemma d2_xy_line_le p a b q :
   ~ pt_eq a b -> on_seg (a, b) q = true -> d2_xy_line p (a, b) <= d2_xy p q.
 Proof.
   intros Hab Hq. apply on_seg_iff in Hq. destruct Hq as [s [[S0 S1] [Hx Hy]]].
-  unfold d2_xy_line, closest_on_line.
+  rewrite (d2_xy_line_closest p a b Hab). unfold closest_on_line.
   pose proof (l2_pos a b Hab) as Hl.
   set (ab := vsub b a) in *. set (l2 := vdot ab ab) in *. set (pr := vdot (vsub p a) ab).
   rewrite (d2_xy_expand p q), Hx, Hy.
@@ -112,12 +123,18 @@ Proof.
 Qed.
 
 Lemma d2_xy_line_nonneg p s : 0 <= d2_xy_line p s.
-Proof. apply d2_xy_nonneg. Qed.
+Proof.
+  destruct s as [a b]. unfold d2_xy_line.
+  destruct (qltb (vdot (vsub p a) (vsub b a)) 0); [apply d2_xy_nonneg|].
+  destruct (qltb (vdot (vsub b a) (vsub b a)) (vdot (vsub p a) (vsub b a))); [apply d2_xy_nonneg|].
+  unfold Qdiv. apply Qmult_le_0_compat; [apply sq_nonneg|]. apply Qinv_le_0_compat.
+  unfold vdot. pose proof (sq_nonneg (fst (vsub b a))). pose proof (sq_nonneg (snd (vsub b a))). lra.
+Qed.
 
 (* distance zero: the point is on the segment *)
 Lemma d2_xy_line_zero p a b : ~ pt_eq a b -> d2_xy_line p (a, b) == 0 -> on_seg (a, b) p = true.
 Proof.
-  intros Hab H. apply d2_xy_zero in H.
+  intros Hab H. rewrite (d2_xy_line_closest p a b Hab) in H. apply d2_xy_zero in H.
   rewrite (on_seg_pt_eq (a, b) p _ H). apply closest_on_seg. exact Hab.
 Qed.
 
@@ -157,12 +174,12 @@ Proof.
   destruct (qmin4_spec (d2_xy_line a (c, d)) (d2_xy_line b (c, d)) (d2_xy_line c (a, b)) (d2_xy_line d (a, b)))
     as [_ Hm]. cbv zeta in Hm. unfold d2_line_line; cbn [fst snd].
   destruct Hm as [E|[E|[E|E]]]; rewrite E.
-  - exists a, (closest_on_line a (c, d)). split; [apply on_seg_left|]. split; [apply closest_on_seg; exact Ht | reflexivity].
-  - exists b, (closest_on_line b (c, d)). split; [apply on_seg_right|]. split; [apply closest_on_seg; exact Ht | reflexivity].
+  - exists a, (closest_on_line a (c, d)). split; [apply on_seg_left|]. split; [apply closest_on_seg; exact Ht | apply d2_xy_line_closest; exact Ht].
+  - exists b, (closest_on_line b (c, d)). split; [apply on_seg_right|]. split; [apply closest_on_seg; exact Ht | apply d2_xy_line_closest; exact Ht].
   - exists (closest_on_line c (a, b)), c. split; [apply closest_on_seg; exact Hs|]. split; [apply on_seg_left|].
-    unfold d2_xy_line. apply d2_xy_sym.
+    rewrite (d2_xy_line_closest c a b Hs). apply d2_xy_sym.
   - exists (closest_on_line d (a, b)), d. split; [apply closest_on_seg; exact Hs|]. split; [apply on_seg_right|].
-    unfold d2_xy_line. apply d2_xy_sym.
+    rewrite (d2_xy_line_closest d a b Hs). apply d2_xy_sym.
 Qed.
 
 Lemma d2_line_line_nonneg s t : 0 <= d2_line_line s t.
@@ -266,6 +283,367 @@ Proof.
   rewrite <- !fold_omin_flat.
   assert (E1 : fold_left (fun m xy => scan_xy xy x2 l2 m) x1 None =
                fold_left (fun m p => fold_left omin (map (d2_xy p) x2 ++ map (d2_xy_line p) l2) m) x1 None).
-  { apply fold_left_ext_eq. intros m p. unfold scan_xy. rewrite fold_left_app, !fold_omin_map. reflexivity. }
-  rewrite E1. apply fold_left_ext_eq. intros m ln. unfold scan_line. rewrite fold_left_app, !fold_omin_map. reflexivity.
+  { apply fold_left_ext_eq. intros m p. unfold scan_xy. rewrite fold_left_app, (fold_omin_map (d2_xy_line p)), (fold_omin_map (d2_xy p)). reflexivity. }
+  rewrite E1. apply fold_left_ext_eq. intros m ln. unfold scan_line.
+  rewrite fold_left_app, (fold_omin_map (fun ln2 => d2_line_line ln2 ln)), (fold_omin_map (fun q => d2_xy_line q ln)). reflexivity.
+Qed.
+
+Inductive pairval (x1 : list pt) (l1 : list seg) (x2 : list pt) (l2 : list seg) : Q -> Prop :=
+| PV_pp p q : In p x1 -> In q x2 -> pairval x1 l1 x2 l2 (d2_xy p q)
+| PV_pl p ln : In p x1 -> In ln l2 -> pairval x1 l1 x2 l2 (d2_xy_line p ln)
+| PV_lp ln q : In ln l1 -> In q x2 -> pairval x1 l1 x2 l2 (d2_xy_line q ln)
+| PV_ll ln ln2 : In ln l1 -> In ln2 l2 -> pairval x1 l1 x2 l2 (d2_line_line ln2 ln).
+
+Lemma pairvals_in x1 l1 x2 l2 v : In v (pairvals x1 l1 x2 l2) <-> pairval x1 l1 x2 l2 v.
+Proof.
+  unfold pairvals. rewrite in_app_iff, !in_flat_map. split.
+  - intros [[p [Hp H]]|[ln [Hln H]]]; apply in_app_iff in H; destruct H as [H|H]; apply in_map_iff in H;
+      destruct H as [y [<- Hy]]; constructor; assumption.
+  - intros H. destruct H as [p q Hp Hq|p ln Hp Hln|ln q Hln Hq|ln ln2 Hln Hln2].
+    + left. exists p. split; [exact Hp|]. apply in_app_iff. left. apply in_map. exact Hq.
+    + left. exists p. split; [exact Hp|]. apply in_app_iff. right. apply in_map. exact Hln.
+    + right. exists ln. split; [exact Hln|]. apply in_app_iff. left. apply (in_map (fun q => d2_xy_line q ln)). exact Hq.
+    + right. exists ln. split; [exact Hln|]. apply in_app_iff. right. apply (in_map (fun ln2 => d2_line_line ln2 ln)). exact Hln2.
+Qed.
+
+Lemma pairval_swap x1 l1 x2 l2 v : pairval x1 l1 x2 l2 v -> exists v', pairval x2 l2 x1 l1 v' /\ v == v'.
+Proof.
+  intros H. destruct H as [p q Hp Hq|p ln Hp Hln|ln q Hln Hq|ln ln2 Hln Hln2].
+  - exists (d2_xy q p). split; [constructor; assumption | apply d2_xy_sym].
+  - exists (d2_xy_line p ln). split; [apply PV_lp; assumption | reflexivity].
+  - exists (d2_xy_line q ln). split; [apply PV_pl; assumption | reflexivity].
+  - exists (d2_line_line ln ln2). split; [apply PV_ll; assumption | apply d2_line_line_sym].
+Qed.
+
+Lemma search_all_swap x1 l1 x2 l2 : opt_qeq (search_all x1 l1 x2 l2) (search_all x2 l2 x1 l1).
+Proof.
+  rewrite !search_all_min_list. apply min_list_equiv; intros v Hv; apply pairvals_in in Hv;
+    destruct (pairval_swap _ _ _ _ v Hv) as [v' [H1 H2]]; exists v'; (split; [apply pairvals_in; exact H1 | exact H2]).
+Qed.
+
+Lemma opt_qeq_refl a : opt_qeq a a.
+Proof. destruct a; simpl; [reflexivity | exact I]. Qed.
+Lemma opt_qeq_sym a b : opt_qeq a b -> opt_qeq b a.
+Proof. destruct a, b; simpl; auto. intros H; symmetry; exact H. Qed.
+
+(* the search branch of Distance as a function of the parts, independent of which operand is indexed *)
+Definition dist2_search (g1 g2 : geom) : option Q :=
+  search_all (part_xys g1) (part_lines g1) (part_xys g2) (part_lines g2).
+
+Lemma dist2_unfold g1 g2 :
+  opt_qeq (dist2 g1 g2) (if intersects g1 g2 then Some 0 else dist2_search g1 g2).
+Proof.
+  unfold dist2, dist2_search. destruct (intersects g1 g2); [simpl; reflexivity|].
+  destruct (Nat.ltb _ _); [apply search_all_swap | apply opt_qeq_refl].
+Qed.
+
+Lemma opt_qeq_trans a b c : opt_qeq a b -> opt_qeq b c -> opt_qeq a c.
+Proof. destruct a, b, c; simpl; auto; try tauto. intros H1 H2. rewrite H1. exact H2. Qed.
+
+Lemma distance_sym g1 g2 : opt_qeq (dist2 g1 g2) (dist2 g2 g1).
+Proof.
+  eapply opt_qeq_trans; [apply dist2_unfold|]. apply opt_qeq_sym.
+  eapply opt_qeq_trans; [apply dist2_unfold|]. rewrite (intersects_sym g2 g1).
+  destruct (intersects g1 g2); [simpl; reflexivity|]. unfold dist2_search. apply search_all_swap.
+Qed.
+
+(* ================================================================ undefined iff no parts *)
+Lemma pairvals_nil x1 l1 x2 l2 :
+  pairvals x1 l1 x2 l2 = [] <-> (x1 = [] /\ l1 = []) \/ (x2 = [] /\ l2 = []).
+Proof.
+  split.
+  - intros H. destruct x1 as [|p x1].
+    + destruct l1 as [|ln l1]; [left; auto|]. right.
+      destruct x2 as [|q x2]; [|exfalso].
+      * destruct l2 as [|ln2 l2]; [auto|exfalso].
+        assert (X : In (d2_line_line ln2 ln) (pairvals [] (ln :: l1) [] (ln2 :: l2))).
+        { apply pairvals_in. constructor; left; reflexivity. }
+        rewrite H in X. destruct X.
+      * assert (X : In (d2_xy_line q ln) (pairvals [] (ln :: l1) (q :: x2) l2)).
+        { apply pairvals_in. apply PV_lp; left; reflexivity. }
+        rewrite H in X. destruct X.
+    + right. destruct x2 as [|q x2]; [|exfalso].
+      * destruct l2 as [|ln2 l2]; [auto|exfalso].
+        assert (X : In (d2_xy_line p ln2) (pairvals (p :: x1) l1 [] (ln2 :: l2))).
+        { apply pairvals_in. apply PV_pl; left; reflexivity. }
+        rewrite H in X. destruct X.
+      * assert (X : In (d2_xy p q) (pairvals (p :: x1) l1 (q :: x2) l2)).
+        { apply pairvals_in. constructor; left; reflexivity. }
+        rewrite H in X. destruct X.
+  - intros [[-> ->]|[-> ->]].
+    + reflexivity.
+    + destruct (pairvals x1 l1 [] []) as [|v r] eqn:E; [reflexivity|]. exfalso.
+      assert (X : In v (pairvals x1 l1 [] [])) by (rewrite E; left; reflexivity).
+      apply pairvals_in in X. destruct X as [? ? ? []|? ? ? []|? ? ? []|? ? ? []].
+Qed.
+
+Definition no_parts (g : geom) : Prop := part_xys g = [] /\ part_lines g = [].
+
+Lemma dist2_none_iff g1 g2 : dist2 g1 g2 = None <-> intersects g1 g2 = false /\ (no_parts g1 \/ no_parts g2).
+Proof.
+  pose proof (dist2_unfold g1 g2) as H. unfold dist2_search in H. rewrite search_all_min_list in H.
+  pose proof (min_list_spec (pairvals (part_xys g1) (part_lines g1) (part_xys g2) (part_lines g2))) as S.
+  destruct (intersects g1 g2).
+  - split; [|intros [X _]; discriminate]. intros E. rewrite E in H. simpl in H. destruct H.
+  - destruct (min_list _) as [v|] eqn:Em.
+    + split.
+      * intros E. rewrite E in H. simpl in H. destruct H.
+      * intros [_ Hn]. exfalso. apply pairvals_nil in Hn. rewrite Hn in S. destruct S as [[] _].
+    + split.
+      * intros _. split; [reflexivity|]. apply pairvals_nil. exact S.
+      * intros _. destruct (dist2 g1 g2); [simpl in H; destruct H | reflexivity].
+Qed.
+
+(* an empty geometry has no parts *)
+Lemma empty_no_parts g : is_empty g = true -> no_parts g.
+Proof.
+  unfold no_parts. induction g using geomT_ind'; cbn [is_empty part_xys part_lines]; intros E.
+  - split; [|reflexivity]. unfold point_empty in E. unfold point_pts. destruct (point_c p); [discriminate | reflexivity].
+  - split; [reflexivity|]. unfold line_empty in E. unfold ls_lines, line_pts. destruct (line_vs l); [reflexivity | discriminate].
+  - split; [reflexivity|]. unfold poly_empty in E. unfold poly_lines. destruct (poly_rings p); [reflexivity | discriminate].
+  - split; [|reflexivity]. induction ps as [|q ps IH]; [reflexivity|]. cbn [forallb] in E. apply andb_true_iff in E.
+    destruct E as [E1 E2]. cbn [flat_map]. rewrite (IH E2), app_nil_r.
+    unfold point_empty in E1. unfold point_pts. destruct (point_c q); [discriminate | reflexivity].
+  - split; [reflexivity|]. unfold mls_lines. induction ls as [|l ls IH]; [reflexivity|]. cbn [forallb] in E. apply andb_true_iff in E.
+    destruct E as [E1 E2]. cbn [flat_map]. rewrite (IH E2), app_nil_r.
+    unfold line_empty in E1. unfold ls_lines, line_pts. destruct (line_vs l); [reflexivity | discriminate].
+  - split; [reflexivity|]. unfold mpoly_lines. induction ps as [|y ys IH]; [reflexivity|]. cbn [forallb] in E. apply andb_true_iff in E.
+    destruct E as [E1 E2]. cbn [flat_map]. rewrite (IH E2), app_nil_r.
+    unfold poly_empty in E1. unfold poly_lines. destruct (poly_rings y); [reflexivity | discriminate].
+  - induction gs as [|x gs IHgs]; [split; reflexivity|].
+    cbn [forallb] in E. apply andb_true_iff in E. destruct E as [E1 E2].
+    inversion H as [|? ? Hx Hgs]; subst. destruct (Hx E1) as [A1 A2]. destruct (IHgs Hgs E2) as [B1 B2].
+    cbn [flat_map]. rewrite A1, A2. split; assumption.
+Qed.
+
+Lemma distance_undefined_of_empty g1 g2 : is_empty g1 = true \/ is_empty g2 = true -> dist2 g1 g2 = None.
+Proof.
+  intros H. apply dist2_none_iff. split; [apply intersects_empty; exact H|].
+  destruct H as [H|H]; [left | right]; apply empty_no_parts; exact H.
+Qed.
+
+(* ================================================================ parts are in the point set *)
+Lemma part_xy_inG g p w : In p (part_xys g) -> pt_eq w p -> inG g w = true.
+Proof.
+  induction g using geomT_ind'; cbn [part_xys inG]; intros Hp Hw; try (destruct Hp; fail).
+  - unfold in_point. apply existsb_exists. exists p. split; [exact Hp | apply pt_eqb_iff; exact Hw].
+  - apply in_flat_map in Hp. destruct Hp as [q [Hq Hp]]. apply existsb_exists. exists q. split; [exact Hq|].
+    unfold in_point. apply existsb_exists. exists p. split; [exact Hp | apply pt_eqb_iff; exact Hw].
+  - apply in_flat_map in Hp. destruct Hp as [x [Hx Hp]]. apply existsb_exists. exists x. split; [exact Hx|].
+    rewrite Forall_forall in H. apply (H x Hx Hp Hw).
+Qed.
+
+Lemma part_line_inG g ln w : In ln (part_lines g) -> on_seg ln w = true -> inG g w = true.
+Proof.
+  induction g using geomT_ind'; cbn [part_lines inG]; intros Hl Hw; try (destruct Hl; fail).
+  - eapply ls_lines_on_line; eauto.
+  - eapply poly_lines_in_poly; eauto.
+  - apply (mls_lines_inML ls ln w Hl Hw).
+  - apply (mpoly_lines_inMY ps ln w Hl Hw).
+  - apply in_flat_map in Hl. destruct Hl as [x [Hx Hl]]. apply existsb_exists. exists x. split; [exact Hx|].
+    rewrite Forall_forall in H. apply (H x Hx Hl Hw).
+Qed.
+
+Lemma part_lines_nondeg g : Forall nondeg (part_lines g).
+Proof.
+  induction g using geomT_ind'; cbn [part_lines]; try constructor.
+  - apply ls_lines_nondeg.
+  - apply poly_lines_nondeg.
+  - apply mls_lines_nondeg.
+  - apply mpoly_lines_nondeg.
+  - apply Forall_forall. intros s Hs. apply in_flat_map in Hs. destruct Hs as [x [Hx Hs]].
+    rewrite Forall_forall in H. specialize (H x Hx). rewrite Forall_forall in H. auto.
+Qed.
+Lemma part_line_nondeg g ln : In ln (part_lines g) -> ~ pt_eq (fst ln) (snd ln).
+Proof. intros H. pose proof (part_lines_nondeg g) as F. rewrite Forall_forall in F. exact (F ln H). Qed.
+
+(* a pair value of zero is a common point of the two point sets *)
+Lemma pairval_zero g1 g2 v :
+  pairval (part_xys g1) (part_lines g1) (part_xys g2) (part_lines g2) v -> v == 0 -> common g1 g2.
+Proof.
+  intros H Hv. destruct H as [p q Hp Hq|p ln Hp Hln|ln q Hln Hq|ln ln2 Hln Hln2].
+  - apply d2_xy_zero in Hv. exists p. split; [eapply part_xy_inG; eauto; reflexivity | eapply part_xy_inG; eauto].
+  - pose proof (part_line_nondeg g2 ln Hln) as Nd. destruct ln as [a b]. cbn [fst snd] in Nd.
+    apply (d2_xy_line_zero p a b Nd) in Hv. exists p.
+    split; [eapply part_xy_inG; eauto; reflexivity | eapply part_line_inG; eauto].
+  - pose proof (part_line_nondeg g1 ln Hln) as Nd. destruct ln as [a b]. cbn [fst snd] in Nd.
+    apply (d2_xy_line_zero q a b Nd) in Hv. exists q.
+    split; [eapply part_line_inG; eauto | eapply part_xy_inG; eauto; reflexivity].
+  - pose proof (part_line_nondeg g1 ln Hln) as Nd1. pose proof (part_line_nondeg g2 ln2 Hln2) as Nd2.
+    destruct (d2_line_line_zero ln2 ln Nd2 Nd1 Hv) as [w [H1 H2]]. exists w.
+    split; eapply part_line_inG; eauto.
+Qed.
+
+(* Distance = 0 exactly when Intersects, on the model, for operands without areal parts *)
+Lemma distance_zero_iff_intersects g1 g2 :
+  no_polys g1 = true -> no_polys g2 = true -> lines_wf g1 = true -> lines_wf g2 = true ->
+  ((exists d, dist2 g1 g2 = Some d /\ d == 0) <-> intersects g1 g2 = true).
+Proof.
+  intros N1 N2 W1 W2. split.
+  - intros [d [Hd H0]]. destruct (intersects g1 g2) eqn:E; [reflexivity|]. exfalso.
+    pose proof (dist2_unfold g1 g2) as U. rewrite Hd, E in U. unfold dist2_search in U.
+    rewrite search_all_min_list in U.
+    pose proof (min_list_spec (pairvals (part_xys g1) (part_lines g1) (part_xys g2) (part_lines g2))) as S.
+    destruct (min_list _) as [v|]; [|simpl in U; destruct U]. simpl in U. destruct S as [Hin _].
+    apply pairvals_in in Hin.
+    assert (Hv : v == 0) by lra.
+    destruct (pairval_zero g1 g2 v Hin Hv) as [w [I1 I2]].
+    rewrite (intersects_complete_lineal g1 g2 w N1 N2 W1 W2 I1 I2) in E. discriminate.
+  - intros H. exists 0. split; [|reflexivity]. unfold dist2. rewrite H. reflexivity.
+Qed.
+
+(* for every pair of operands: intersecting implies distance zero, and a zero distance always has
+   a common point as witness *)
+Lemma distance_zero_witness g1 g2 d :
+  dist2 g1 g2 = Some d -> d == 0 -> intersects g1 g2 = true \/ common g1 g2.
+Proof.
+  intros Hd H0. destruct (intersects g1 g2) eqn:E; [left; reflexivity|]. right.
+  pose proof (dist2_unfold g1 g2) as U. rewrite Hd, E in U. unfold dist2_search in U.
+  rewrite search_all_min_list in U.
+  pose proof (min_list_spec (pairvals (part_xys g1) (part_lines g1) (part_xys g2) (part_lines g2))) as S.
+  destruct (min_list _) as [v|]; [|simpl in U; destruct U]. simpl in U. destruct S as [Hin _].
+  apply pairvals_in in Hin. apply (pairval_zero g1 g2 v Hin). lra.
+Qed.
+
+(* ================================================================ the pruned search *)
+Lemma full_search_noop {R} (val : R -> Q) l b :
+  (forall r, In r l -> b < val r) -> full_search val l (Some b) = Some b.
+Proof.
+  unfold full_search. induction l as [|r l IH]; intros H; [reflexivity|].
+  cbn [fold_left omin]. assert (E : qmin b (val r) = b).
+  { unfold qmin. assert (X : qltb b (val r) = true) by (apply qltb_true_iff; apply H; left; reflexivity).
+    rewrite X. reflexivity. }
+  rewrite E. apply IH. intros r' Hr'. apply H. right. exact Hr'.
+Qed.
+
+(* on a stream sorted by a lower bound [key] of [val], stopping at the first record whose bound
+   exceeds the best value so far loses nothing *)
+Lemma pruned_search_is_min {R} (key val : R -> Q) recs best :
+  StronglySorted (fun r s => key r <= key s) recs ->
+  (forall r, In r recs -> key r <= val r) ->
+  pruned_search key val recs best = full_search val recs best.
+Proof.
+  revert best. induction recs as [|r rest IH]; intros best Hs Hk; [reflexivity|].
+  inversion Hs as [|? ? Hs' Hall]; subst.
+  assert (Hk' : forall r0, In r0 rest -> key r0 <= val r0) by (intros r0 H0; apply Hk; right; exact H0).
+  cbn [pruned_search]. destruct best as [b|].
+  - destruct (qltb b (key r)) eqn:E.
+    + apply qltb_true_iff in E. symmetry. apply full_search_noop. intros r0 [<-|H0].
+      * pose proof (Hk r (or_introl eq_refl)). lra.
+      * rewrite Forall_forall in Hall. pose proof (Hall r0 H0). pose proof (Hk' r0 H0). lra.
+    + rewrite (IH _ Hs' Hk'). reflexivity.
+  - rewrite (IH _ Hs' Hk'). reflexivity.
+Qed.
+
+(* ================================================================ envelopes *)
+Lemma box_contains_iff e p :
+  box_contains e p = true <-> bminx e <= fst p <= bmaxx e /\ bminy e <= snd p <= bmaxy e.
+Proof. unfold box_contains. rewrite !andb_true_iff, !Qle_bool_iff. tauto. Qed.
+
+Lemma sq_le_sq a x : 0 <= a -> (a <= x \/ a <= - x \/ a == 0) -> a * a <= x * x.
+Proof. intros Ha [K|[K|K]]; nra. Qed.
+
+Lemma box_d2_le e o p q :
+  box_contains e p = true -> box_contains o q = true -> box_d2 e o <= d2_xy p q.
+Proof.
+  rewrite !box_contains_iff, d2_xy_expand. intros [[X1 X2] [Y1 Y2]] [[X3 X4] [Y3 Y4]]. unfold box_d2.
+  set (dx := qmax2 0 (qmax2 (bminx o - bmaxx e) (bminx e - bmaxx o))).
+  set (dy := qmax2 0 (qmax2 (bminy o - bmaxy e) (bminy e - bmaxy o))).
+  assert (Hx : 0 <= dx /\ (dx <= fst p - fst q \/ dx <= fst q - fst p \/ dx == 0)).
+  { unfold dx. destruct (qmax2_spec 0 (qmax2 (bminx o - bmaxx e) (bminx e - bmaxx o))) as [[H1 ->]|[H1 ->]].
+    - split; [exact H1|]. destruct (qmax2_spec (bminx o - bmaxx e) (bminx e - bmaxx o)) as [[H2 E]|[H2 E]]; rewrite E; [left | right; left]; lra.
+    - split; [lra | right; right; reflexivity]. }
+  assert (Hy : 0 <= dy /\ (dy <= snd p - snd q \/ dy <= snd q - snd p \/ dy == 0)).
+  { unfold dy. destruct (qmax2_spec 0 (qmax2 (bminy o - bmaxy e) (bminy e - bmaxy o))) as [[H1 ->]|[H1 ->]].
+    - split; [exact H1|]. destruct (qmax2_spec (bminy o - bmaxy e) (bminy e - bmaxy o)) as [[H2 E]|[H2 E]]; rewrite E; [left | right; left]; lra.
+    - split; [lra | right; right; reflexivity]. }
+  clearbody dx dy. destruct Hx as [Hx0 Hx], Hy as [Hy0 Hy].
+  assert (Sx : dx * dx <= (fst p - fst q) * (fst p - fst q)).
+  { apply sq_le_sq; [exact Hx0|]. destruct Hx as [K|[K|K]]; [left; lra | right; left; lra | right; right; exact K]. }
+  assert (Sy : dy * dy <= (snd p - snd q) * (snd p - snd q)).
+  { apply sq_le_sq; [exact Hy0|]. destruct Hy as [K|[K|K]]; [left; lra | right; left; lra | right; right; exact K]. }
+  lra.
+Qed.
+
+Lemma box_add_mono e q p : box_contains e p = true -> box_contains (box_add e q) p = true.
+Proof.
+  rewrite !box_contains_iff. unfold box_add; cbn [bminx bminy bmaxx bmaxy]. intros [[X1 X2] [Y1 Y2]].
+  destruct (qmin2_spec (bminx e) (fst q)) as [[? ->]|[? ->]]; destruct (qmax2_spec (bmaxx e) (fst q)) as [[? ->]|[? ->]];
+  destruct (qmin2_spec (bminy e) (snd q)) as [[? ->]|[? ->]]; destruct (qmax2_spec (bmaxy e) (snd q)) as [[? ->]|[? ->]];
+  repeat split; lra.
+Qed.
+Lemma box_add_self e q : box_contains (box_add e q) q = true.
+Proof.
+  rewrite box_contains_iff. unfold box_add; cbn [bminx bminy bmaxx bmaxy].
+  destruct (qmin2_spec (bminx e) (fst q)) as [[? ->]|[? ->]]; destruct (qmax2_spec (bmaxx e) (fst q)) as [[? ->]|[? ->]];
+  destruct (qmin2_spec (bminy e) (snd q)) as [[? ->]|[? ->]]; destruct (qmax2_spec (bmaxy e) (snd q)) as [[? ->]|[? ->]];
+  repeat split; lra.
+Qed.
+Lemma fold_box_add_contains r e p :
+  box_contains e p = true \/ In p r -> box_contains (fold_left box_add r e) p = true.
+Proof.
+  revert e. induction r as [|q r IH]; intros e [H|H]; cbn [fold_left].
+  - exact H.
+  - destruct H.
+  - apply IH. left. apply box_add_mono. exact H.
+  - apply IH. destruct H as [<-|H]; [left; apply box_add_self | right; exact H].
+Qed.
+Lemma box_of_pts_contains ps e p : box_of_pts ps = Some e -> In p ps -> box_contains e p = true.
+Proof.
+  destruct ps as [|a r]; [discriminate|]. cbn [box_of_pts]. intros E Hp. injection E as <-.
+  apply fold_box_add_contains. destruct Hp as [<-|Hp]; [left | right; exact Hp].
+  rewrite box_contains_iff. unfold xy_box; cbn [bminx bminy bmaxx bmaxy]. repeat split; lra.
+Qed.
+
+Lemma box_contains_seg e a b w :
+  box_contains e a = true -> box_contains e b = true -> on_seg (a, b) w = true -> box_contains e w = true.
+Proof.
+  rewrite !box_contains_iff. intros [[A1 A2] [A3 A4]] [[B1 B2] [B3 B4]] H.
+  unfold on_seg in H. rewrite !andb_true_iff, !qbetween_iff in H. destruct H as [[Hx Hy] _].
+  repeat split; [destruct Hx; lra | destruct Hx; lra | destruct Hy; lra | destruct Hy; lra].
+Qed.
+
+Lemma part_pts_xy g p : In p (part_xys g) -> In p (part_pts g).
+Proof. intros H. unfold part_pts. apply in_app_iff. left. exact H. Qed.
+Lemma part_pts_line g ln : In ln (part_lines g) -> In (fst ln) (part_pts g) /\ In (snd ln) (part_pts g).
+Proof.
+  intros H. unfold part_pts. split; apply in_app_iff; right; apply in_flat_map; exists ln; (split; [exact H|]); simpl; auto.
+Qed.
+
+Lemma parts_box_xy g e p : parts_box g = Some e -> In p (part_xys g) -> box_contains e p = true.
+Proof. intros E H. eapply box_of_pts_contains; [exact E | apply part_pts_xy; exact H]. Qed.
+Lemma parts_box_line g e ln w :
+  parts_box g = Some e -> In ln (part_lines g) -> on_seg ln w = true -> box_contains e w = true.
+Proof.
+  intros E H Hw. destruct (part_pts_line g ln H) as [H1 H2]. destruct ln as [a b].
+  apply (box_contains_seg e a b w); [eapply box_of_pts_contains; eauto | eapply box_of_pts_contains; eauto | exact Hw].
+Qed.
+
+Lemma pairval_ge_box g1 g2 e1 e2 v :
+  parts_box g1 = Some e1 -> parts_box g2 = Some e2 ->
+  pairval (part_xys g1) (part_lines g1) (part_xys g2) (part_lines g2) v -> box_d2 e1 e2 <= v.
+Proof.
+  intros E1 E2 H. destruct H as [p q Hp Hq|p ln Hp Hln|ln q Hln Hq|ln ln2 Hln Hln2].
+  - apply box_d2_le; [eapply parts_box_xy; eauto | eapply parts_box_xy; eauto].
+  - pose proof (part_line_nondeg g2 ln Hln) as Nd. destruct ln as [a b]. cbn [fst snd] in Nd.
+    rewrite (d2_xy_line_closest p a b Nd). apply box_d2_le; [eapply parts_box_xy; eauto|].
+    eapply parts_box_line; [exact E2 | exact Hln | apply closest_on_seg; exact Nd].
+  - pose proof (part_line_nondeg g1 ln Hln) as Nd. destruct ln as [a b]. cbn [fst snd] in Nd.
+    rewrite (d2_xy_line_closest q a b Nd). rewrite d2_xy_sym. apply box_d2_le; [|eapply parts_box_xy; eauto].
+    eapply parts_box_line; [exact E1 | exact Hln | apply closest_on_seg; exact Nd].
+  - pose proof (part_line_nondeg g1 ln Hln) as Nd1. pose proof (part_line_nondeg g2 ln2 Hln2) as Nd2.
+    destruct (d2_line_line_attained ln2 ln Nd2 Nd1) as [p [q [Hp [Hq E]]]]. rewrite E, d2_xy_sym.
+    apply box_d2_le; [eapply parts_box_line; eauto | eapply parts_box_line; eauto].
+Qed.
+
+(* the value found by the search is never below the squared distance of the boxes of the parts *)
+Lemma distance_ge_envelope_search g1 g2 e1 e2 d :
+  parts_box g1 = Some e1 -> parts_box g2 = Some e2 -> intersects g1 g2 = false ->
+  dist2 g1 g2 = Some d -> box_d2 e1 e2 <= d.
+Proof.
+  intros E1 E2 Hi Hd. pose proof (dist2_unfold g1 g2) as U. rewrite Hd, Hi in U. unfold dist2_search in U.
+  rewrite search_all_min_list in U.
+  pose proof (min_list_spec (pairvals (part_xys g1) (part_lines g1) (part_xys g2) (part_lines g2))) as S.
+  destruct (min_list _) as [v|]; [|simpl in U; destruct U]. simpl in U. destruct S as [Hin _].
+  apply pairvals_in in Hin. rewrite U. eapply pairval_ge_box; eauto.
 Qed.
